@@ -92,3 +92,29 @@ Theorem c20_split_test_and_set_refuted :
   Claim.c_loops (Claim.crun true Claim.cst0 ClaimProofs.split_trace) = 1%nat /\
   Claim.cphase_of (Claim.crun true Claim.cst0 ClaimProofs.split_trace) 2%N = Claim.CRefused.
 Proof. exact ClaimProofs.split_start_refuted. Qed.
+
+(* At the grain of single keep-alives (Inflight.v: calls and returns of Start, Stop and Wait, the
+   begin and end of every keep-alive the pool receives; a keep-alive may take any time, and the
+   loop looks at the stop request only between keep-alives).  "Can always be stopped": in every
+   history the agent can produce, once a Stop call has returned no keep-alive begins until Start
+   is called again; Stop returns only with the loop idle and ended, the run's result is queued
+   for Wait and a new Start is accepted.  A Stop that returns after a while with the keep-alive
+   still in flight is not a history of this system. *)
+From VP Require Import Inflight InflightProofs.
+Theorem c20_no_keepalive_after_stop_returns : forall pre mid post,
+  irun false i0 (pre ++ EStopRet :: mid ++ EKB :: post) <> None -> In EStartCall mid.
+Proof. exact no_keepalive_after_stop_returns. Qed.
+Print Assumptions c20_no_keepalive_after_stop_returns.
+Theorem c20_stop_return_ends_the_run : forall pre s s',
+  irun false i0 pre = Some s -> istep false s EStopRet = Some s' ->
+  i_loop s = true /\ i_busy s = false /\ i_loop s' = false /\ i_started s' = false /\ i_results s' = S (i_results s) /\
+  istep false s' EWaitRet <> None /\
+  (i_starting s' = false -> exists s'', istep false s' EStartCall = Some s'' /\ i_start_ok s'' = true).
+Proof. exact stop_return_ends_the_run. Qed.
+Print Assumptions c20_stop_return_ends_the_run.
+Theorem c20_stop_that_gives_up_refuted :
+  let h := [EStartCall; EKB; EKE true; EStartRet true; EKB; EStopCall; EStopRet; EKE true; EKB; EKE true] in
+  irun true i0 h <> None /\ ifail false i0 h 0 = Some 6%nat /\
+  let h' := [EStartCall; EKB; EKE true; EStartRet true; EKB; EStopCall; EKE true; EKB; EKE true; EStopRet; EWaitRet; EStartCall] in
+  irun false i0 h' <> None.
+Proof. exact stop_that_gives_up_refuted. Qed.
